@@ -239,3 +239,25 @@ P.unit(f"{ENSQ}.loads_xyz", name="units[ensemble xyz]: loads_/load_ honour sourc
        functions=[f"{ENSQ}.loads_xyz", f"{ENSQ}.load_xyz"])(ens_units_unit("xyz"))
 P.unit(f"{ENSQ}.loads_mol2", name="units[ensemble mol2]: loads_/load_ honour source_units and name",
        functions=[f"{ENSQ}.loads_mol2", f"{ENSQ}.load_mol2"])(ens_units_unit("mol2"))
+@P.unit(f"{GEO}.yield_from_xyz", name="xyz text of a molecule without atoms reads back as a molecule without atoms (0 atoms is a geometry too)",
+        functions=[f"{GEO}.dump_xyz", f"{GEO}.yield_from_xyz", f"{GEO}.loads_xyz", "molli.parsing.xyz:read_xyz"])
+def _xyz_empty(V):
+    I, st = V.I, V.st
+    T.use(st)
+    m = M.mk_mol(V, "Molecule", 0, (), name="e")
+    V.assume(z3.Length(m.fields["_name"].z) > 0)
+    V.witness(lambda ev: {"op": "xyz-empty", "signature": "xyz-empty"})
+    V.cover()
+    w = V.method(m, "dumps_xyz", [])
+    V.ensure("empty/writer-returns-text", z3.BoolVal(w.returned))
+    if not w.returned:
+        return
+    cls = V.cls(M.CLS["Molecule"])
+    I.target = f"{GEO}.yield_from_xyz"
+    try:
+        r = I.call(I.getattr_(cls, "loads_xyz"), [w.value], {})
+    except PyExc as ex:
+        V.ensure("empty/reader-accepts-the-written-text", z3.BoolVal(False), raised=repr(getattr(ex.value, "fields", "")))
+        return
+    V.ensure("empty/reader-accepts-the-written-text", z3.BoolVal(True))
+    V.ensure("empty/no-atoms-no-coordinates", z3.BoolVal(len(r.fields["_atoms"].items) == 0 and isinstance(r.fields["_coords"], NdArr) and tuple(r.fields["_coords"].tail) == (0, 3)))
